@@ -142,6 +142,14 @@ class Run:
                 'abbr': op['abbr'], 'cfg': op['cfg'], 'rep': rep,
                 'expected(pristine)': fresh, 'got(after history)': outcome,
                 'type': cfg_type(h.spec), 'syntax': cfg_syntax(h.spec)})
+        elif outcome[0] == 'ok' and info.get('peer_view') is not None and ref['fresh'].get('peer_view') is not None \
+                and info['peer_view'] != ref['fresh']['peer_view']:
+            # same string, but the caller's callbacks were asked different things on the way
+            self.violate('C08', 'result', 'history-changes-callback-view:%s' % cfg_type(h.spec), i, {
+                'abbr': op['abbr'], 'cfg': op['cfg'], 'rep': rep, 'result': outcome,
+                'what': 'the sequence of output.field/output.text invocations (arguments, positions, answers) differs from the '
+                        'one the same call produces in a pristine interpreter',
+                'last invocations (after history)': [list(x) for x in h.peer.log[-3:]] if h.peer is not None else None})
         if 'none' in ref and ref['none']['outcome'] != fresh:
             self.violate('C08', 'result', 'cache-changes-result:%s:%s->%s' % (cfg_type(h.spec), ref['none']['outcome'][0], fresh[0]), i, {
                 'abbr': op['abbr'], 'cfg': op['cfg'],
